@@ -206,7 +206,7 @@ def c11(args, rng):
     cases, meta = [], []
     for _ in range(n):
         deg = rng.randint(0, 8)
-        npieces = rng.randint(1, 6)
+        npieces = rng.randint(1, 6) if rng.random() < 0.9 else rng.randint(7, 60)
         ends = sorted(rng.choice([rng.uniform(0.05, 20), 2.0 ** rng.randint(-4, 4), rng.uniform(0.7, 1.4)]) for _ in range(npieces))
         if npieces > 1 and rng.random() < 0.2:
             ends[1] = ends[0]   # duplicate breakpoint
